@@ -164,7 +164,7 @@ def patch_for(vendor, otxt, old, new, rules=None):
         rules = _cache.setdefault("rules", patching_rules())
     rbk = {"patching": compile_patching_text(refrb.text(rules), vendor), "ordering": compile_ordering_text(otxt, vendor),
            "deploying": compile_deploying_text("", vendor)}
-    diff, patch = api._diff_and_patch(env.device(vendor), env.to_odict(old), env.to_odict(new), None, None, False, rb=rbk)
+    diff, patch = env.diff_and_patch(env.device(vendor), env.to_odict(old), env.to_odict(new), None, None, False, rb=rbk)
     return patch
 
 
@@ -296,7 +296,7 @@ def corpus_patch(model, old, new):
     import types
     hw = HardwareView(model, None)
     dev = types.SimpleNamespace(hw=hw, hostname="d", fqdn="d")
-    diff, pt = api._diff_and_patch(dev, env.to_odict(old), env.to_odict(new), None, None, False)
+    diff, pt = env.diff_and_patch(dev, env.to_odict(old), env.to_odict(new), None, None, False)
     fmt = env.vendor_obj(hw.vendor).make_formatter()
     return [tuple(p) for p in fmt.cmd_paths(pt).keys()]
 
@@ -558,7 +558,7 @@ def _patch_and_order(s_, ref_track=None):
     hw = HardwareView(s_["model"], None)
     dev = types.SimpleNamespace(hw=hw, hostname="d", fqdn="d")
     try:
-        _, pt = api._diff_and_patch(dev, env.to_odict(s_["old"]), env.to_odict(s_["new"]), None, None, False, ref_track=ref_track)
+        _, pt = env.diff_and_patch(dev, env.to_odict(s_["old"]), env.to_odict(s_["new"]), None, None, False, ref_track=ref_track)
         paths = [list(p) for p in env.vendor_obj(hw.vendor).make_formatter().cmd_paths(pt)]
     except Exception as e:  # noqa
         paths = "%s" % type(e).__name__
